@@ -103,6 +103,7 @@ def polynomial(
             exponents=exponents,
             coefficients=coefficients,
             names=names,
+            dtype=dtype,
             allocation=allocation,
         )
 
@@ -128,6 +129,7 @@ def polynomial(
             exponents=exponents,
             coefficients=coefficients,
             names=names,
+            dtype=dtype,
             allocation=allocation,
         )
 
